@@ -50,9 +50,12 @@ func (s *scanner) reset() {
 // an error state is returned if maxNestingDepth was exceeded, otherwise successState is returned.
 func (s *scanner) pushParseState(newParseState int, successState int) int {
 	s.parseState = append(s.parseState, newParseState)
-	if len(s.parseState) <= maxNestingDepth {
+	// The top-level value itself is not nested: n values inside each other have nesting depth n-1.
+	if len(s.parseState)-1 <= maxNestingDepth {
 		return successState
 	}
+	s.step = stateError
+	s.errContext = "exceeded max nesting depth"
 	return scanError
 }
 
